@@ -3,10 +3,16 @@
    Assumptions.  [to_pwl r g] is the rendering of a gradient event (corner list in block time) and
    [eval] the piecewise-linear function of Base/PWL.v; all constants (raster rounding, t_eps, the 6
    decimals, the order of the alignment options) come from Gen/GenGradOps.v.
-   mod_grad_axis / flip_grad_axis and "arguments are not modified" are checked on the implementation
-   by harness/props/C18.py (object identity and aliasing are not expressible in the model). *)
+   mod_grad_axis / flip_grad_axis are modelled on the store of Model/Seq.v (Model/ModAxis.v, last section).
+   "Arguments are not modified" is checked on the implementation by harness/props/C18.py (object
+   identity and aliasing are not expressible in the model). *)
 From Coq Require Import ZArith QArith Qabs List Bool.
-From PV Require Import Base.QUtil Base.Round Base.PWL Gen.GenGradOps Model.GradOps Proofs.GradOpsProofs.
+From PV Require Import Base.QUtil Base.Round Base.PWL Gen.GenGradOps Model.GradOps Proofs.GradOpsProofs
+  Proofs.SplitOffRaster.
+From Coq Require Import Qcanon.
+From RecordUpdate Require Import RecordSet.
+From PV Require Import Base.AList Model.EventLib Model.Seq Model.ModAxis Proofs.ModAxisProofs.
+Import RecordSetNotations.
 Import ListNotations.
 Open Scope Q_scope.
 
@@ -44,6 +50,58 @@ Theorem C18_split_sum : forall s t up flat down t',
    eval (to_pwl r (GExt down)) j2 == t_amp t /\ eval (to_pwl r (GTrap tr)) j2 == t_amp t).
 Proof. exact split3_sum. Qed.
 Print Assumptions C18_split_sum.
+
+(* off-raster input (the documented rounding then really changes the argument): the ramp-down part is
+   placed with the UNROUNDED total duration (split_gradient.py:50,79), so away from the junctions the
+   three parts miss the raster-rounded trapezoid by exactly the displacement of the ramp-down by
+   d = total - rounded total:   ramp(x - j2 - d) - ramp(x - j2),  ramp = [(0, amp); (fall', 0)] *)
+Theorem C18_split_discrepancy : forall s t up flat down t',
+  let r := raster s in
+  split_gradient s (GTrap t) = (OK (up, flat, down), t') ->
+  let tr := round_trap r t in
+  0 < t_rise tr -> 0 < t_flat tr -> 0 < t_fall tr ->
+  let j1 := t_delay tr + t_rise tr in
+  let j2 := j1 + t_flat tr in
+  let ramp := eval [(0, t_amp t); (t_fall tr, 0)] in
+  let d := split_total_shift r t in
+  forall x, ~ x == j1 -> ~ x == j2 ->
+    eval (to_pwl r (GExt up)) x + eval (to_pwl r (GExt flat)) x + eval (to_pwl r (GExt down)) x
+    - eval (to_pwl r (GTrap tr)) x == ramp (x - j2 - d) - ramp (x - j2).
+Proof. exact split3_discrepancy. Qed.
+Print Assumptions C18_split_discrepancy.
+
+(* the parts add up to the rounded trapezoid (at all non-junction times) IF AND ONLY IF the rounding
+   leaves the total duration unchanged (amplitude not zero) *)
+Theorem C18_split_adds_up_iff : forall s t up flat down t',
+  let r := raster s in
+  split_gradient s (GTrap t) = (OK (up, flat, down), t') ->
+  let tr := round_trap r t in
+  0 < t_rise tr -> 0 < t_flat tr -> 0 < t_fall tr -> ~ t_amp t == 0 ->
+  (split_total_shift r t == 0 <->
+   forall x, ~ x == t_delay tr + t_rise tr -> ~ x == t_delay tr + t_rise tr + t_flat tr ->
+     eval (to_pwl r (GExt up)) x + eval (to_pwl r (GExt flat)) x + eval (to_pwl r (GExt down)) x
+     == eval (to_pwl r (GTrap tr)) x).
+Proof.
+  intros s t up flat down t' r H tr Hr Hf Hl HA. split.
+  - intro Hd. exact (split3_adds_up_if s t up flat down t' H Hr Hf Hl Hd).
+  - intro Hall. destruct (Qeq_dec (split_total_shift r t) 0) as [E|E]; [exact E|exfalso].
+    destruct (split3_adds_up_only_if s t up flat down t' H Hr Hf Hl HA E) as (x & N1 & N2 & N3).
+    apply N3. apply Hall; assumption.
+Qed.
+Print Assumptions C18_split_adds_up_iff.
+
+(* witness: rise 23 us, flat 104 us, fall 23 us, delay 0 on a 10 us raster: accepted, rounded to
+   20/100/20 us, total 150 us vs rounded total 140 us: the ramp-down starts 10 us late *)
+Theorem C18_split_off_raster_refuted : exists s t up flat down t',
+  split_gradient s (GTrap t) = (OK (up, flat, down), t') /\
+  Qeq_bool (split_total_shift (raster s) t) (1 # 100000) = true /\
+  Qeq_bool (e_delay down) (13 # 100000) = true.
+Proof.
+  exists (mkSys (1 # 100000) 2000000 20000000000).
+  exists (mkTrap 0 100000 (23 # 1000000) (104 # 1000000) (23 # 1000000) 0 0 0 None).
+  eexists. eexists. eexists. eexists. split; [vm_compute; reflexivity|]. split; vm_compute; reflexivity.
+Qed.
+Print Assumptions C18_split_off_raster_refuted.
 
 (* on-raster values are fixed points of the raster rounding *)
 Theorem C18_raster_rounding_id : forall r x k, 0 < r -> x == inject_Z k * r -> to_raster r x == x.
@@ -139,6 +197,86 @@ Proof.
   split; vm_compute; reflexivity.
 Qed.
 Print Assumptions C18_split_at_arbitrary_refuted.
+
+(* ---- mod_grad_axis / flip_grad_axis on the sequence store ------------------------------------------ *)
+(* mod_grad_axis_decodes_scaled: after a successful call EVERY block decodes to the decode of the input
+   with the gradient on the chosen channel rescaled (same type, same shapes, row rescaled); the other
+   channels, RF, ADC, extensions and the duration are those of the input; a block that did not decode
+   still does not *)
+Theorem C18_mod_grad_axis_decodes_scaled : forall c ch m c',
+  mod_grad_axis c ch m = (c', None) ->
+  forall i, decode c' i = option_map (scale_dblock ch m) (decode c i).
+Proof. exact mod_grad_axis_decodes_scaled. Qed.
+Print Assumptions C18_mod_grad_axis_decodes_scaled.
+
+(* the rescaled row: amplitude (column 0) times m; for 'g' rows also first and last (columns 4, 5) *)
+Theorem C18_mod_grad_axis_row : forall ty m data j, (j < length data)%nat ->
+  knth (scale_row ty m data) j =
+  if (Nat.eqb j 0 || ((ty =? tag_g)%Z && (Nat.eqb j 4 || Nat.eqb j 5)))%bool then (knth data j * m)%Qc else knth data j.
+Proof. exact scale_row_spec. Qed.
+Print Assumptions C18_mod_grad_axis_row.
+
+Theorem C18_flip_grad_axis_decodes_negated : forall c ch c',
+  flip_grad_axis c ch = (c', None) ->
+  forall i, decode c' i = option_map (scale_dblock ch (Q2Qc (-1))) (decode c i).
+Proof. intros c ch c' H. exact (mod_grad_axis_decodes_scaled c ch (Q2Qc (-1)) c' H). Qed.
+Print Assumptions C18_flip_grad_axis_decodes_negated.
+
+(* only the gradient library changes; a refused call changes nothing *)
+Theorem C18_mod_grad_axis_frame : forall c ch m c' e, mod_grad_axis c ch m = (c', e) ->
+  exists gl', c' = c <| grad_l := gl' |> /\
+    (e = Some MAAxis \/ e = Some MAEmpty \/ e = Some MAShared -> gl' = grad_l c).
+Proof. exact mod_grad_axis_frame. Qed.
+Print Assumptions C18_mod_grad_axis_frame.
+
+(* an id used on the chosen channel and on another channel: RuntimeError, nothing changed *)
+Theorem C18_mod_grad_axis_refuses_shared : forall c ch m o b1 b2 id,
+  (ch < 3)%nat -> (o < 3)%nat -> o <> ch -> id <> 0%Z ->
+  In b1 (blocks c) -> In b2 (blocks c) ->
+  nth (2 + ch) (snd b1) 0%Z = id -> nth (2 + o) (snd b2) 0%Z = id ->
+  mod_grad_axis c ch m = (c, Some MAShared).
+Proof. exact mod_grad_axis_refuses_shared. Qed.
+Print Assumptions C18_mod_grad_axis_refuses_shared.
+
+(* key collisions: decode does not read the key map / next id of the gradient library, so the entries
+   lost or overwritten there when a rescaled row equals another row cannot change any block *)
+Theorem C18_decode_ignores_keymap : forall c km nx i,
+  decode (c <| grad_l := mkLib (ldata (grad_l c)) (ltype (grad_l c)) km nx |>) i = decode c i.
+Proof. exact decode_keymap_indep. Qed.
+Print Assumptions C18_decode_ignores_keymap.
+
+(* on the object (with or without block cache, whatever the cache held before): get_block after a
+   successful call returns the rescaled decode, because the call empties the cache *)
+Theorem C18_mod_grad_axis_get_block : forall cache_on s ch m s' i,
+  mod_grad_axis_state s ch m = (s', None) ->
+  snd (do_get cache_on s' i) = option_map (scale_dblock ch m) (decode (st_core s) i).
+Proof. exact mod_grad_axis_state_get. Qed.
+Print Assumptions C18_mod_grad_axis_get_block.
+
+(* non-vacuity with a key collision: x gradients +A (id 1) and -A (id 2); after the flip the key map has
+   lost an entry (2 rows, 1 key), yet both blocks decode to the negated rows *)
+Example C18_mod_grad_axis_collision_example :
+  let A := zq 1000 in let nA := zq (-1000) in let t := zq 1 in
+  let row a := [a; t; t; t; qc0] in
+  let gl := mkLib [(1, row A); (2, row nA)]%Z [(1, tag_t); (2, tag_t)]%Z [(row A, 1); (row nA, 2)]%Z 3%Z in
+  let c := (core_init t t t t) <| grad_l := gl |>
+             <| blocks := [(1, [0; 0; 1; 0; 0; 0; 0]); (2, [0; 0; 2; 0; 0; 0; 0])]%Z |>
+             <| durs := [(1, t); (2, t)]%Z |> in
+  match mod_grad_axis c 0 (Q2Qc (-1)) with
+  | (c', None) =>
+      (length (lkeymap (grad_l c')) =? 1)%nat && (length (ldata (grad_l c')) =? 2)%nat &&
+      match decode c' 1, decode c' 2 with
+      | Some b1, Some b2 =>
+          match d_g b1, d_g b2 with
+          | [Some g1; None; None], [Some g2; None; None] =>
+              key_eqb (dg_data g1) (row nA) && key_eqb (dg_data g2) (row A)
+          | _, _ => false
+          end
+      | _, _ => false
+      end
+  | _ => false
+  end = true.
+Proof. vm_compute. reflexivity. Qed.
 
 (* ---- align ------------------------------------------------------------------------------------ *)
 (* the common duration is the longest delay+length (and at least 0) *)
